@@ -221,12 +221,15 @@ def const_leaf_terms(W):
                     yield t
 
 
-def const_inner_terms(shape_pair, W):
+def const_inner_terms(shape_pair, W, full=True):
     """two-operator terms whose INNER node mixes a signal with a constant (zero / one extension, constant masks, constant
     shift amounts...): back ends special-case constant nets (trimming, folding), so every consumer must see them"""
     a, b = (sig_leaf(i, sh) for i, sh in enumerate(shape_pair))
     inners = []
-    for cst in [("c", 0, 1, False), ("c", 0, 2, False), ("c", 1, 1, False), ("c", 3, 2, False), ("c", -1, 1, True), ("c", -2, 2, True), ("c", 0, 0, False)]:
+    csts = [("c", 0, 1, False), ("c", 0, 2, False), ("c", 1, 1, False), ("c", 3, 2, False), ("c", -1, 1, True), ("c", -2, 2, True), ("c", 0, 0, False)]
+    if not full:
+        csts = [("c", 0, 2, False), ("c", 1, 1, False), ("c", -1, 1, True)]
+    for cst in csts:
         inners += [("cat", a, cst), ("cat", cst, a), ("b", "&", a, cst), ("b", "|", a, cst), ("b", "+", a, cst), ("b", "*", a, cst),
                    ("b", "<<", a, cst) if not cst[3] else ("b", "^", a, cst), ("b", ">>", cst, a) if not a[3] else ("b", "-", cst, a),
                    ("mux", a, cst, b), ("mux", cst, a, b), ("b", "==", a, cst), ("bsel", cst, a, 2) if not a[3] else ("b", "<", cst, a)]
